@@ -29,14 +29,14 @@ def r04_1(ctx, run, rule='R04.1'):
     f = ctx.facts
     vals = [cv(f, n) for n in LEVELS]
     if any(v is None for v in vals):
-        run.violation(rule, 'constants', 'levels', 'rank constants not found (anchor lost)')
+        run.undecided(rule, 'constants', 'levels', 'rank constants not found (anchor lost)')
         return
     ok = all(vals[i] > vals[i + 1] for i in range(len(vals) - 1))
     (run.proved if ok else run.violation)(rule, 'constants::*_LEVEL', 'rank-order', 'Null > Array > Object > String > Number > true > false > invalid' if ok else
                                            f'the rank constants {dict(zip(LEVELS, vals))} are not strictly decreasing in the documented order')
     b = f.one('functions::jentry_compare_level')
     if b is None:
-        run.violation(rule, 'functions::jentry_compare_level', 'table', 'function not found (anchor lost)')
+        run.undecided(rule, 'functions::jentry_compare_level', 'table', 'function not found (anchor lost)')
         return
     ps, _ = explore(b)
     table = {}
@@ -122,7 +122,7 @@ def r04_2(ctx, run, rule='R04.2'):
             ('functions::compare_container', {('A', 'A'): {'compare_array'}, ('O', 'O'): {'compare_object'}, ('A', 'O'): {'Greater'}, ('O', 'A'): {'Less'}})):
         b = f.one(fn)
         if b is None:
-            run.violation(rule, fn, 'dispatch', 'function not found (anchor lost)')
+            run.undecided(rule, fn, 'dispatch', 'function not found (anchor lost)')
             continue
         ps, capped = explore(b, max_paths=6000)
         table = {}
@@ -194,7 +194,7 @@ def r04_2b(ctx, run, rule='R04.2'):
     f = ctx.facts
     b = f.one('functions::compare_scalar')
     if b is None:
-        run.violation(rule, 'functions::compare_scalar', 'arms', 'function not found (anchor lost)')
+        run.undecided(rule, 'functions::compare_scalar', 'arms', 'function not found (anchor lost)')
         return
     g = lambda n: cv(f, n)
     names = {g(n): n for n in ('NULL_TAG', 'STRING_TAG', 'NUMBER_TAG', 'TRUE_TAG', 'FALSE_TAG', 'CONTAINER_TAG')}
@@ -269,7 +269,7 @@ def r04_6(ctx, run, rule='R04.6'):
     for fn in ('functions::compare_array', 'functions::compare_object'):
         b = f.one(fn)
         if b is None:
-            run.violation(rule, fn, 'tie-break', 'function not found (anchor lost)')
+            run.undecided(rule, fn, 'tie-break', 'function not found (anchor lost)')
             continue
         loops = natural_loops(b)
         ex = Explorer(b, max_paths=4000)
